@@ -1163,6 +1163,13 @@ class Walker(object):
         if state is None:
             state = self.new_state()
         base_depth = len(state.frames)
+        perm = getattr(self.prog, "arg_perm", {}).get(fn.path)
+        if perm and len(perm) == len(args):
+            # parameters reordered since the reference tree: the caller speaks the reference order
+            cur = [None] * len(args)
+            for r, c in enumerate(perm):
+                cur[c] = args[r]
+            args = cur
         fr0 = self.push_frame(state, fn, genv or {}, args, None, None)
         if start_block is not None:
             fr0.block = start_block
@@ -1583,6 +1590,10 @@ class Walker(object):
             return self.finish(st, "panic", detail=("call", path, fr.fn.path, fr.fn.loc(span)))
         ret = None
         havoc = True
+        args_cur = args
+        perm = getattr(self.prog, "arg_perm", {}).get(path)
+        if perm and len(perm) == len(args):
+            args = [args_cur[c] for c in perm]      # hooks and the trace see the reference parameter order
         if self.effect_hook is not None:
             ret = self.effect_hook(self, st, path, args, dest_ty, (fr.fn, span))
             if isinstance(ret, EffectResult):
@@ -1594,7 +1605,7 @@ class Walker(object):
             n = len(st.trace)
             ret = self.symval("ret%d:%s" % (n, path.split("::")[-1]), dest_ty)
         # havoc through &mut arguments
-        for i, a in enumerate(args):
+        for i, a in enumerate(args_cur):
             if not havoc:
                 break
             if isinstance(a, Ref) and a.mut:
